@@ -24,6 +24,7 @@
 #include <assemble.h>
 #include <sensors.h>
 #include <dipole.h>
+#include <constants.h>
 #include <map>
 #include <memory>
 #include "wire.h"
@@ -64,6 +65,7 @@ static FWire c08(Reader& r,FReader& f) {
         o.z.push_back((ll)(g.nb_parameters()-g.nb_current_barrier_triangles()));
         o.z.push_back((ll)g.domains().size());
         std::map<const Triangle*,ll> serial;
+        std::vector<double> coords;      // 9 doubles per triangle, in serial order (appended after the conductivities)
         size_t k=0;
         for (const auto& d : g.domains()) {
             o.z.push_back((ll)k++); o.z.push_back(d.conductivity()!=0.0 ? 1 : 0); o.z.push_back((ll)d.boundaries().size());
@@ -74,13 +76,17 @@ static FWire c08(Reader& r,FReader& f) {
                     const Mesh& m = om.mesh();
                     o.z.push_back(om.orientation()); o.z.push_back(m.current_barrier() ? 1 : 0); o.z.push_back((ll)m.triangles().size());
                     for (const auto& t : m.triangles()) {
-                        if (!serial.count(&t)) { const ll s=(ll)serial.size(); serial[&t]=s; }
+                        if (!serial.count(&t)) {
+                            const ll s=(ll)serial.size(); serial[&t]=s;
+                            for (int v=0;v<3;++v) { coords.push_back(t.vertex(v).x()); coords.push_back(t.vertex(v).y()); coords.push_back(t.vertex(v).z()); }
+                        }
                         o.z.push_back(t.index()); o.z.push_back(t.vertex(0).index()); o.z.push_back(t.vertex(1).index());
                         o.z.push_back(t.vertex(2).index()); o.z.push_back(serial[&t]);
                     }
                 }
             }
         }
+        o.f.insert(o.f.end(),coords.begin(),coords.end());
         return o;
     }
     case 7: {   // containment: for each point, the ids of the domains that contain it
@@ -149,6 +155,7 @@ static FWire c08(Reader& r,FReader& f) {
                 o.f.push_back(Integrator::rules[ord][i].weight);
             }
         }
+        o.f.push_back(K); o.f.push_back(MagFactor);      // constants.h
         return o;
     }
     }
